@@ -180,6 +180,8 @@ structure State where
   dirty : List Addr := []
   /-- candidates chosen by the last `gcSelect` (gc index entries, in iteration order) -/
   cands : List (GcKey × Nat) := []
+  /-- `target` of the run in progress: `gcTarget()` is evaluated once, at the start of `collectGarbage` -/
+  runTarget : Nat := 0
 deriving Repr
 
 inductive Err
@@ -574,7 +576,7 @@ def gcSelect (s : State) : Res :=
     let target := gcTarget s.capacity
     if s.db.gcSize ≤ target then { st := { s with dirty := [] }, out := .gcIdle, writes := [] }
     else
-      { st := { s with gcRunning := true, dirty := [],
+      { st := { s with gcRunning := true, dirty := [], runTarget := target,
                        cands := selectCands s.db.gcSize target s.db.gc 0 },
         out := .gcSel, writes := [] }
 
@@ -611,7 +613,7 @@ def evictLoop (pyr : Addr → Option (List (Addr × Nat))) (dirty : List Addr) :
 def gcEvict (s : State) (pyr : Addr → Option (List (Addr × Nat))) : Res :=
   if !s.gcRunning then { st := s, out := .nogc, writes := [] }
   else
-    let target := gcTarget s.capacity
+    let target := s.runTarget
     let (tx, n, recycled, visited) := evictLoop pyr s.dirty (Tx.start s) s.cands 0 [] []
     let gcSize := tx.db.gcSize
     let tx : Tx := recycled.foldl (fun (t : Tx) (e : GcKey × Nat) =>
